@@ -242,12 +242,18 @@ def _b_hamilton(chk):
               sample="rhs(t, y) = _hamiltonian_rhs(y, jac_H, clmo_H, n_dof)")
     # _polynomial_jacobian: derivative w.r.t. variable i stored at index i, i = 0..5 in order
     calls = []
-    ipj = Interp(overrides={"_polynomial_differentiate": lambda ip_, a, k: (calls.append(a[1]), (("D", a[1]), a[2] - 1 if isinstance(a[2], int) else a[2]))[1]})
+    def pdiff(ip_, a, k):
+        b = dict(zip(["poly_p", "var_idx", "max_deg"], a))
+        b.update(k)
+        calls.append(int(b["var_idx"]))
+        return (("D", int(b["var_idx"])), b["max_deg"])
+
+    ipj = Interp(overrides={"_polynomial_differentiate": pdiff})
     try:
         jac = ipj.call_function(PO, "_polynomial_jacobian", [sp.Symbol("POLY"), 4, sp.Symbol("psi"), sp.Symbol("clmo"), sp.Symbol("enc")])
         order = [c for c in calls]
-        chk.check(order == list(range(6)) and len(jac) == 6, "C17.b", f"{PO}::_polynomial_jacobian", f"Jacobian entries are built for variables {order}, expected 0..5 in order",
-                  sample="jac_H[i] = d/dx_i, i = 0..5")
+        chk.check(order == list(range(6)) and len(jac) == 6 and [j[1] for j in jac] == list(range(6)), "C17.b", f"{PO}::_polynomial_jacobian",
+                  f"Jacobian entries are built for variables {order} and stored as {[j[1] for j in jac]}, expected 0..5 in order", sample="jac_H[i] = d/dx_i, i = 0..5")
     except OutsideFragment as exc:
         chk.note(f"_polynomial_jacobian not analysable in isolation ({exc}); covered by C06")
     chk.count("functions partially evaluated", 6)
